@@ -182,7 +182,15 @@ Definition msgq_step (fixed : bool) (q : msgq) (o : mop) : option (N * msgq * li
       let q1 := set_qs q (mq_putq q) (mq_getq q ++ [a]) in
       match run_getq (length (mq_getq q1)) q1 with
       | None => None
-      | Some (q2, outs) => Some (0%N, run_notify q2, outs)
+      | Some (q2, outs) =>
+          (* since fix e654d99 the writer side is run as well (a reader that took a buffered
+             message made room for blocked writers); the pinned form ran only the reader side *)
+          if fixed then
+            match run_putq (length (mq_putq q2)) q2 with
+            | None => None
+            | Some (q3, o3) => Some (0%N, run_notify q3, outs ++ o3)
+            end
+          else Some (0%N, run_notify q2, outs)
       end
   | MTryPut m =>
       if mq_closed q then Some (ECLOSED, q, []) else
